@@ -154,6 +154,22 @@ def end_to_end(P, col, mode):
         #  and must still equal A)
         if not np.allclose(J, A, rtol=0, atol=1e-12):
             return dict(kind='end-to-end: coloured totals differ from the jacobian', setup_mode=smode, A=A.tolist(), totals=J.tolist())
+        # the same with NON-UNIFORM driver scaling (ref arrays on the design variable and on the response): the
+        # driver-scaled coloured totals are the scaled jacobian  diag(1/ref_y) A diag(ref_x)
+        refx = 1.0 + 0.5 * np.arange(nc)
+        refy = 2.0 / (1.0 + np.arange(nr))
+        p = om.Problem(reports=False)
+        p.model.add_subsystem('c', Lin(), promotes=['*'])
+        p.model.add_design_var('x', ref=refx)
+        p.model.add_constraint('y', lower=0.0, ref=refy)
+        p.driver = om.ScipyOptimizeDriver()
+        p.driver.use_fixed_coloring(col)
+        p.setup(mode=smode)
+        p.run_model()
+        Js = p.driver._compute_totals(of=['y'], wrt=['x'], return_format='array', driver_scaling=True)
+        As = A * refx[None, :] / refy[:, None]
+        if not np.allclose(Js, As, rtol=1e-12, atol=1e-12):
+            return dict(kind='end-to-end: driver-scaled coloured totals differ from the scaled jacobian', setup_mode=smode, expected=As.tolist(), totals=Js.tolist())
     return None
 
 
